@@ -130,7 +130,8 @@ def clause_covers(obs):
         ant = o.goal.arg(0)
         if z3.is_true(ant):
             continue
-        key = strip_line(o.name)
+        import re
+        key = re.sub(r'#\d+$', '', strip_line(o.name))      # (the same clause at several returns of one line)
         cov = smt.Ob(o.name + ':cover:antecedent', list(o.hyps) + [ant], z3.BoolVal(False), kind='cover', fn=o.fn,
                      meta={'subst': o.meta['subst']} if o.meta.get('subst') else None)
         groups.setdefault(key, []).append(cov)
